@@ -21,6 +21,7 @@ def stepRow (A : Arch) (row : Row) (first : Bool) (regs : A.Regs) (mem : Mem) : 
     match A.generic row first regs mem with
     | .ok ra regs' => .ret (resOfRa ra) regs'
     | .err _ => A.exec A.fallback first regs mem
+    | .panic s => .panic s
 
 /-- `unwind_frame` with a fresh cache is `stepRow` of the row the module's CFI resolves to. -/
 theorem unwindFrame_fresh_is_stepRow (A : Arch) (N : Nat) (u : Unw) (addr : FrameAddr)
